@@ -187,10 +187,11 @@ def rule_store(ctx):
                           % (label, expr_str(f["score"]), expr_str(f["best_ply"]), expr_str(f["depth"])))
             elif key == C.ALPHA_BETA:
                 ok = set(arms) == {"Upper", "Exact"} and f["score"] == ("var", "alpha") and f["best_ply"] == ("var", "best_ply") and f["depth"] == ("arg", "depth")
-                # Upper iff alpha <= alpha_start (or ==, <)
+                # Upper iff alpha <= alpha_start (or ==)
                 if ok:
                     up = arms["Upper"] or []
-                    ok = any(c[3][0] == "bin" and c[3][1] in ("Le", "Eq", "Lt") and c[3][2] == ("var", "alpha") and c[3][3] == ("arg", "alpha_start") and True in c[1] for c in up) or \
+                    # (`alpha < alpha_start` never holds - alpha only grows - and would make every such entry Exact)
+                    ok = any(c[3][0] == "bin" and c[3][1] in ("Le", "Eq") and c[3][2] == ("var", "alpha") and c[3][3] == ("arg", "alpha_start") and True in c[1] for c in up) or \
                         any(c[3][0] == "bin" and c[3][1] in ("Gt",) and c[3][2] == ("var", "alpha") and c[3][3] == ("arg", "alpha_start") and False in c[1] for c in up)
                 ctx.check(ok, "%s:store:final" % key, "the final store writes alpha with Upper iff alpha was not raised above alpha_start, else Exact", b.where(wb),
                           bad_what="the final store writes bound=%s score=%s move=%s depth=%s; expected Upper iff alpha <= alpha_start else Exact, with score alpha"
